@@ -1212,6 +1212,18 @@ void readin (void)
 	 */
 	backend_by_name(ctrl.emit);
 
+	/* Features only the default back end implements (see "Retargeting
+	 * Flex" in the manual) are refused rather than ignored.
+	 */
+	if (!is_default_backend()) {
+		if (ctrl.C_plus_plus)
+			flexerror (_("-+ / %option c++ is only supported by the default back end"));
+		if (env.headerfilename != NULL)
+			flexerror (_("--header-file is only supported by the default back end"));
+		if (tablesext)
+			flexerror (_("--tables-file is only supported by the default back end"));
+	}
+
 	initialize_output_filters();
 
 	yyout = stdout;
